@@ -44,6 +44,7 @@ fi
 t1=$(date +%s)
 rm -f /tmp/mutant-evidence-$prop-$n.json
 git -C $wt checkout -q -- . 2>/dev/null
+cd /verif
 if [ $onhead = yes ]; then git -C /repo worktree remove --force $wt; fi
 echo "$chk"
 cp $m/patch.diff $out/patch.diff; cp $m/demo_test.go.txt $out/demo_test.go.txt; cp $m/README.md $out/README.md 2>/dev/null
